@@ -178,9 +178,9 @@ impl<'a> Ctx<'a> {
         let env = if S::environments() && self.env_rng.below(ENV_EVERY) == 0 {
             let e = crate::env::draw_env(&mut self.env_rng);
             self.obs.count(match &e {
-                crate::env::Env::After(_) => "env:after-refused-operation",
-                crate::env::Env::Unwinding => "env:while-unwinding",
-                crate::env::Env::AfterThenUnwinding(_) => "env:after-refused-operation-while-unwinding",
+                crate::env::Env::After(_) => "fault:env-after-refused-operation",
+                crate::env::Env::Unwinding => "fault:env-while-unwinding",
+                crate::env::Env::AfterThenUnwinding(_) => "fault:env-after-refused-operation-while-unwinding",
             });
             Some(e)
         } else {
